@@ -92,3 +92,18 @@ Section Inst.
     intros [->|[t [r [-> Ht]]]] s0; [reflexivity|]. cbn [inputs map]. rewrite (gb_stateless s0 (kind t) (okf t) _ Ht). reflexivity.
   Qed.
 End Inst.
+
+(* ---------- which closures keep variables at all (facts regenerated from bql/semantic/hooks.go, parser.go, llk.go) ---- *)
+(* exactly the two closures whose machines are modelled write captured variables, and exactly the modelled variables;
+   every other hook closure writes no captured or package-level variable, and no method of Parser / Grammar assigns a
+   field: the only state that outlives a Parse call is the one covered by the reset theorems *)
+Definition closure_state_ok : bool :=
+  forallb (fun c =>
+    match snd c with
+    | [] => true
+    | vs => (String.eqb (fst c) "dataAccumulator" && list_eqb String.eqb vs ["o"; "p"; "s"]%string)
+            || (String.eqb (fst c) "collectGlobalBounds" && list_eqb String.eqb vs ["lastToken"; "opToken"]%string)
+    end) closure_writes
+  && match parser_field_writes with [] => true | _ => false end
+  && existsb (fun c => String.eqb (fst c) "whereSubjectClause") closure_writes
+  && existsb (fun c => String.eqb (fst c) "dataAccumulator") closure_writes.
